@@ -83,6 +83,26 @@ def run(ctx: Ctx) -> Result:
                 elif ok and not (wk == 'single' and lk == 'single') :
                     # cross-pairings unlock only by coincidence of layout; none of these layouts coincide
                     B.viol(f'{wk} witness unlocks a {lk} lock', {**inp, 'scripts': [w.bytes.hex(), l.bytes.hex()], 'cache': vmrun.cache_str(sf, False)}, False, v)
+        # a used authorization (signature, surrogate) is public: re-cutting the pair - bytes of the surrogate moved onto the end of the
+        # signature item, so that the TAIL of the surrogate is what the lock would evaluate - is a surrogate the key never signed
+        for sur_src in ('true', 'push x' + pks[1].hex() + ' check_sig_verify x00 true', 'push d1 push d1 equal'):
+            S_ = T.Script.from_src(sur_src).bytes
+            ssig_ = SigningKey(seeds[0]).sign(S_).signature
+            ctl = G.push(ssig_) + G.push(S_) + b'\x01'
+            for j in sorted({1, len(S_) - 1, len(S_) // 2} - {0, len(S_)}):
+                wcut = G.push(ssig_ + S_[:j]) + G.push(S_[j:]) + b'\x01'
+                res.note_case((tuple(seeds), 'recut', sur_src[:12], j))
+                ok, v = B.auth([wcut, locks['graftroot'].bytes], sf)
+                if ok: B.viol(f'graftroot lock: signature item = signature + first {j} byte(s) of the signed surrogate, script item = the rest of it', {**inp, 'scripts': [wcut.hex(), locks['graftroot'].bytes.hex()], 'cache': vmrun.cache_str(sf, False)}, False, v)
+                if not isinstance(W['graftap_script'], str):
+                    wb_ = W['graftap_script'].bytes
+                    # the graftap script-spend witness begins with the pushes of (signature, surrogate): same re-cut there
+                    hon = T.make_graftap_witness_scriptspend(seeds[0], T.Script.from_bytes(S_)).bytes
+                    head = G.push(ssig_) + G.push(S_)
+                    if hon.startswith(head):
+                        wcut2 = G.push(ssig_ + S_[:j]) + G.push(S_[j:]) + hon[len(head):]
+                        ok, v = B.auth([wcut2, locks['graftap'].bytes], sf)
+                        if ok: B.viol(f'graftap lock: signature item = signature + first {j} byte(s) of the signed surrogate, script item = the rest of it', {**inp, 'scripts': [wcut2.hex(), locks['graftap'].bytes.hex()], 'cache': vmrun.cache_str(sf, False)}, False, v)
         # perturbations: another key, different covered fields, non-permitted flag, different scripts, foreign-signed surrogate
         W2 = wit(seeds[3], wf)
         for wk, lk in (('single', 'single'), ('single2', 'single2'), ('graftroot_key', 'graftroot'), ('graftap_key', 'graftap')):
